@@ -41,7 +41,10 @@ def zoo():
         ("Regex.empty", lambda: pp.Regex(r"a*")), ("QuotedString", lambda: pp.QuotedString('"')), ("QuotedString.esc", lambda: pp.QuotedString("'", esc_char="\\")),
         ("CloseMatch", lambda: pp.CloseMatch("abab")), ("Empty", lambda: pp.Empty()), ("NoMatch", lambda: pp.NoMatch()),
         ("LineStart", lambda: pp.LineStart() + W("ab")), ("LineEnd", lambda: W("ab") + pp.LineEnd()), ("StringStart", lambda: pp.StringStart() + W("ab")),
-        ("StringEnd", lambda: W("ab") + pp.StringEnd()), ("StringEnd2", lambda: pp.StringEnd() + pp.StringEnd()), ("LineEnd2", lambda: pp.LineEnd() + pp.LineEnd() + L("a")),
+        ("StringEnd", lambda: W("ab") + pp.StringEnd()), ("StringEnd2", lambda: pp.StringEnd() + pp.StringEnd()),
+        ("StringEnd2.then", lambda: W("ab") + pp.StringEnd() + pp.StringEnd() + W("12")), ("LineEnd.StringEnd.then", lambda: W("ab") + pp.LineEnd() + pp.StringEnd() + W("12")),
+        ("LineEnd.StringEnd.stop", lambda: W("ab") + pp.LineEnd() - pp.StringEnd() - W("12")), ("StringEnd3.or", lambda: (pp.StringEnd() + pp.StringEnd() + pp.StringEnd() + W("12")) ^ L("zz")),
+        ("StringEnd2.then.lit", lambda: W("ab") + pp.StringEnd() + pp.StringEnd() + L("a")), ("StringEnd5.regex", lambda: W("ab") + pp.StringEnd() * 5 + pp.Regex("[0-9]+")), ("LineEnd2", lambda: pp.LineEnd() + pp.LineEnd() + L("a")),
         ("WordStart", lambda: pp.WordStart("ab") + W("ab")), ("WordEnd", lambda: W("ab") + pp.WordEnd("ab")), ("WordEnd0", lambda: pp.WordEnd("ab")),
         ("GoToColumn", lambda: pp.GoToColumn(3) + W("ab")), ("Tag", lambda: W("ab") + pp.Tag("t")),
         ("And", lambda: L("a") + "b"), ("And.stop", lambda: L("a") - "b"), ("MatchFirst", lambda: L("a") | "b"), ("Or", lambda: L("a") ^ "ab"),
